@@ -115,6 +115,13 @@ class FracObserver(l1.Observer):
             if fr is None:
                 raise l1.Violation("restart:frac-missing", f"restart file has no frac for live path {pn}")
             tot += np.array([float(x) for x in fr])[: n - 1]
+            # the restart file must carry the accumulated weights exactly (a restarted run continues from them)
+            back = np.array(fr, dtype=np.longdouble)
+            mem = np.array(st.traj_data[pn]["frac"], dtype=np.longdouble)
+            if back.shape != mem.shape or not np.all(back == mem):
+                k = int(np.argmax(back != mem)) if back.shape == mem.shape else -1
+                raise l1.Violation("restart:frac-not-exact",
+                                   f"path {pn}: restart file holds {fr[k] if k >= 0 else fr} but the accumulated weight is {mem[k] if k >= 0 else mem!r}")
         extra = set(cur["frac"]) - {str(p) for p in cur["active"]}
         if extra:
             raise l1.Violation("restart:frac-of-dead-path", f"restart file keeps weights of non-live paths {sorted(extra)}")
